@@ -174,7 +174,7 @@ func symAtom(name string, args ...poly) poly {
 	}
 	full := name + "(" + strings.Join(as, ", ") + ")"
 	symApps[full] = symApp{name, args}
-	if symWiden != nil && len(full) > symWidenLimit && name != "atan2" {
+	if symWiden != nil && len(full) > symWidenLimit && name != "atan2" && !(symKeep[name] && len(full) <= 8*symWidenLimit) {
 		// widening: a very large application is replaced by a symbol named after its content (equal
 		// expressions keep equal names) whose value under the reference valuation is recorded
 		if v, ok := symEvalAtom(full, symWiden); ok {
@@ -193,6 +193,9 @@ func symAtom(name string, args ...poly) poly {
 var symWiden map[string]float64
 
 const symWidenLimit = 160
+
+// symKeep: applications a model needs to see through (never abbreviated while set).
+var symKeep = map[string]bool{}
 
 // symWideOf: the application each abbreviation stands for (to ask what it depends on).
 var symWideOf = map[string]string{}
